@@ -59,6 +59,44 @@ def copies_follow_check():
     return out
 
 
+def kept_nested_reference_check():
+    """'nested edit' as a route of a state point change, through a reference to a nested mapping / list that the caller took BEFORE an
+    earlier change: the edit still re-keys the job (new id = hash of the new state point, one directory, document carried along)"""
+    import hashlib
+    import logging
+    import signac
+    from .common import project_scratch
+    logging.disable(logging.CRITICAL)
+    out = []
+    for first in ("setitem", "assign-same-nested", "update_statepoint", "reinit"):
+        with project_scratch() as p:
+            try:
+                j = p.open_job({"a": 1, "n": {"x": 1}, "l": [1, 2]}).init()
+                j.doc["d"] = 1
+                sub, lst = j.sp.n, j.sp.l
+                if first == "setitem":
+                    j.sp.a = 2
+                elif first == "assign-same-nested":
+                    j.statepoint = {"a": 2, "n": {"x": 1}, "l": [1, 2]}
+                elif first == "update_statepoint":
+                    j.update_statepoint({"c": 3})
+                else:
+                    j.init()
+                sub.x = 9
+                lst.append(3)
+                sp = json.loads(json.dumps(j.statepoint()))
+                ids = sorted(os.listdir(p.workspace))
+                want_n, want_l = {"x": 9}, [1, 2, 3]
+                ok = sp.get("n") == want_n and sp.get("l") == want_l and ids == [hashlib.md5(json.dumps(sp, sort_keys=True).encode()).hexdigest()] and j.id == ids[0] \
+                    and json.loads(json.dumps(j.doc())) == {"d": 1}
+                if not ok:
+                    out.append((first, f"a reference to a nested value taken before a state point change ({first}) and edited afterwards: the job's state point is {sp}, "
+                                       f"the workspace holds {[i[:8] for i in ids]}, the handle says {j.id[:8]}"))
+            except Exception as e:
+                out.append((first, f"editing a nested value through a reference taken before a state point change ({first}) raised {type(e).__name__}: {str(e)[:200]}"))
+    return out
+
+
 def run(tier="quick", seed=0):
     b = Budget(12 if tier == "quick" else 240)
     r = run_histories(seed + 4, b, n_hist=40 if tier == "quick" else 2000, length=14 if tier == "quick" else 40, weights={"init": 3, "doc": 1, "file": 1, "rekey": 6, "move": 2, "clone": 2, "handle": 3})
@@ -71,6 +109,10 @@ def run(tier="quick", seed=0):
         r["failures"].append({"key": "doc:rekey-inside-buffer:" + sig, "description": msg,
                               "script": script_header() + "sys.path.insert(0, '/verif')\nfrom pybound.c05 import rekey_in_buffer_check\nr = rekey_in_buffer_check()\nassert not r, r\n"})
     r["evaluations"] = r.get("evaluations", 0) + 3
+    for sig, msg in kept_nested_reference_check():
+        r["failures"].append({"key": "nested-reference:" + sig, "description": msg,
+                              "script": script_header() + "sys.path.insert(0, '/verif')\nfrom pybound.c04 import kept_nested_reference_check\nr = kept_nested_reference_check()\nassert not r, r\n"})
+    r["evaluations"] += 4
     for sig, msg in copies_follow_check():
         r["failures"].append({"key": "copy:does-not-follow:" + sig, "description": msg,
                               "script": script_header() + "sys.path.insert(0, '/verif')\nfrom pybound.c04 import copies_follow_check\nr = copies_follow_check()\nassert not r, r\n"})
